@@ -557,8 +557,10 @@ TOL_TRACE = 1e-9  # relative, per component (measured on the pinned tree: < 1e-1
 def _check_trace(res, S):
     """unary_irrev_cstr where the product is a trace: every float backend gives each component to a relative 1e-9 of the 60-digit
     symbolic value (a mixed absolute/relative comparison would not see the product at all)"""
+    import mpmath
     import numpy as np
 
+    mpmath.mp.dps = DPS
     name = "unary_irrev_cstr"
     for ipt, (pt, tv) in enumerate(TRACE_POINTS):
         p = {q: Fr(pt[q]) for q in MECH[name]["params"]}
